@@ -22,7 +22,7 @@ pub fn prop() -> Prop {
         max_len: 200,
         quick: 6_000,
         thorough: 200_000,
-        rule: "Part A: choice sequence -> thread program: 2-16 threads, each 1-6 operations from {format, format_flat, tree_format(true|false), diagnostic_annotated, hex, register_tags, known-value lookup by name / by value through KNOWN_VALUES, function / parameter name lookup through GLOBAL_FUNCTIONS / GLOBAL_PARAMETERS, dcbor tag-name lookup} on 1-4 generated envelopes (known values, tagged leaves, dates, expressions, requests / responses, elided / encrypted / compressed parts), each operation preceded by a generated busy-wait of 0-50 us, all threads released by one barrier; EVERY CASE RUNS IN ITS OWN CHILD PROCESS, so all threads race on first-use initialisation (a second class registers tags before the barrier). oracle: the child exits within the watchdog, every thread joins without panic (a poisoned lock shows up as a panic of a later caller), and every result equals the text the same call returns alone, computed in two reference child processes (never-registered / registered-first): equal to the unregistered reference if the program has no register_tags, to the registered one if registration completed before the barrier, to either if a register_tags is racing. Part B (separate build with bc-envelope/multithreaded): a generated envelope is shared by 2-16 threads which compute digest, bytes, structural digest, element count, format and tree format and clone/drop sub-envelopes; all must equal the single-thread values. non-trivial: >=3 threads with >=2 distinct operation kinds; distinct by FNV-64 of the program; after a closing barrier each thread repeats one formatting call, which must equal the reference of the final registry state exactly",
+        rule: "Part A: choice sequence -> thread program: 2-16 threads, each 1-6 operations from {format, format_flat, tree_format(true|false), diagnostic_annotated, hex, register_tags, known-value lookup by name / by value through KNOWN_VALUES, function / parameter name lookup through GLOBAL_FUNCTIONS / GLOBAL_PARAMETERS, dcbor tag-name lookup} on 1-4 generated envelopes (known values, tagged leaves, dates, expressions, requests / responses, elided / encrypted / compressed parts), each operation preceded by a generated busy-wait of 0-50 us, all threads released by one barrier; EVERY CASE RUNS IN ITS OWN CHILD PROCESS, so all threads race on first-use initialisation (a second class registers tags before the barrier). oracle: the child exits within the watchdog, every thread joins without panic (a poisoned lock shows up as a panic of a later caller), and every result equals the text the same call returns alone, computed in two reference child processes (never-registered / registered-first): equal to the unregistered reference if the program has no register_tags, to the registered one if registration completed before the barrier, to either if a register_tags is racing. Part B (separate build with bc-envelope/multithreaded): a generated envelope is shared by 2-16 threads which compute digest, bytes, structural digest, element count, format and tree format and clone/drop sub-envelopes; all must equal the single-thread values. non-trivial: >=3 threads with >=2 distinct operation kinds; distinct by FNV-64 of the program; after a closing barrier each thread repeats one formatting call, which must equal the reference of the final registry state exactly; envelopes may hold array / map leaves whose elements are tagged values with summarizers (panicking date, key bundles, custom tag)",
         assumptions: &[
             "WEAK: schedules are sampled (jitter + fresh-process repetition), not enumerated; the harness does not own the scheduler and the locks of dcbor::GLOBAL_TAGS live in a dependency",
             "a child that does not finish within 20 s is a violation only if two /proc samples 1 s apart show every thread sleeping with no CPU time consumed (deadlock); otherwise the run is inconclusive (exit 2)",
